@@ -364,6 +364,50 @@ def w_real(job):
                 pass
             if time.time() - t0 > 30:
                 prob, detail = 'dead-executable-hangs', '%.1f s' % (time.time() - t0)
+        elif which == 'slow-executable-then-retry':
+            # launch failure by time-out: the interpreter needs longer than the client waits. The caller gets an exception; the
+            # process it launched must not stay behind, and the next call (with a working interpreter) gets exactly one server
+            import stat
+            import tempfile
+            d = tempfile.mkdtemp(prefix='c16slow_')
+            pidfile = os.path.join(d, 'pid')
+            wrapper = os.path.join(d, 'slowpython')
+            with open(wrapper, 'w') as f:
+                f.write('#!/bin/sh\necho $$ > %s\nsleep 7\nexec %s "$@"\n' % (pidfile, sys.executable))
+            os.chmod(wrapper, os.stat(wrapper).st_mode | stat.S_IXUSR)
+            env = Environment(executable=wrapper, env={'SUPP_LOG_LEVEL': '100', 'PYTHONPATH': core.REPO})
+            try:
+                try:
+                    env.configure({'sources': ['.']})
+                    prob, detail = 'slow-executable-no-exception', 'configure returned although the server cannot have been up'
+                except Exception:
+                    pass
+                p1 = env.proc
+                env.executable = sys.executable
+                if prob is None:
+                    env.configure({'sources': ['.']})
+                    r = env.lint('x = 1\n', 'a.py')
+                    p2 = env.proc
+                    if r != [] or p2.poll() is not None:
+                        prob, detail = 'not-usable-after-launch-timeout', 'reply %r poll %s' % (r, p2.poll())
+                    time.sleep(4)        # by now the slow interpreter would be up and listening
+                    first = int(open(pidfile).read().strip())
+                    if prob is None and alive(first):
+                        prob, detail = 'two-servers-alive:after-launch-timeout', ('the process launched by the timed-out attempt (pid %d) is still alive '
+                                                                                  'beside the server of the retry (pid %d)' % (first, p2.pid))
+                        try:
+                            os.kill(first, signal.SIGKILL)
+                        except OSError:
+                            pass
+                    env.close()
+                    p2.wait(timeout=10)
+                try:
+                    p1.kill()
+                except Exception:
+                    pass
+            finally:
+                import shutil
+                shutil.rmtree(d, ignore_errors=True)
     except Exception as e:
         prob, detail = 'real-run-raises:%s:%s' % (which, type(e).__name__), traceback.format_exc()[-400:]
     sh.case(('real', which), True, {'real_process_run': which})
@@ -373,7 +417,7 @@ def w_real(job):
     return sh.result()
 
 
-REAL = ['close-then-reuse', 'reuse-while-old-server-exits-slowly', 'close-without-session', 'client-exits', 'client-killed', 'client-closes-connection', 'unstartable-executable', 'executable-exits-at-once']
+REAL = ['close-then-reuse', 'reuse-while-old-server-exits-slowly', 'close-without-session', 'client-exits', 'client-killed', 'client-closes-connection', 'unstartable-executable', 'executable-exits-at-once', 'slow-executable-then-retry']
 
 
 def run(run):
